@@ -2,6 +2,7 @@ package nodesim
 
 import (
 	"bytes"
+	"encoding/binary"
 	"fmt"
 	"sort"
 
@@ -78,14 +79,19 @@ func (w *world) aggregate(vs lib.ValidatorSet, qc *lib.QuorumCertificate, signer
 	return &lib.AggregateSignature{Signature: sig, Bitmap: bm.Bitmap()}
 }
 
-// belowQuorum picks the heaviest set of members whose power stays under the threshold.
-func belowQuorum(ms []member2, thr uint64, rot int) (in, out []member2, power uint64) {
+// belowQuorum picks a set of members whose power stays under the threshold: the heaviest such set
+// (closest to the threshold) or, with manyFirst, the one with the most members (small stakes first).
+func belowQuorum(ms []member2, thr uint64, rot int, manyFirst bool) (in, out []member2, power uint64) {
 	s := append([]member2(nil), ms...)
 	if len(s) > 1 {
 		rot %= len(s)
 		s = append(s[rot:], s[:rot]...)
 	}
-	sort.SliceStable(s, func(i, j int) bool { return s[i].power > s[j].power })
+	if manyFirst {
+		sort.SliceStable(s, func(i, j int) bool { return s[i].power < s[j].power })
+	} else {
+		sort.SliceStable(s, func(i, j int) bool { return s[i].power > s[j].power })
+	}
 	for _, m := range s {
 		if power+m.power < thr {
 			in = append(in, m)
@@ -115,7 +121,11 @@ func (w *world) forgeCertificates(pr *proposal, vs lib.ValidatorSet, honest *lib
 		return nil
 	}
 	all := ms
-	under, rest, underPower := belowQuorum(ms, thr, t.Intn(8))
+	manyFirst := t.Chance(1, 2)
+	under, rest, underPower := belowQuorum(ms, thr, t.Intn(8), manyFirst)
+	if manyFirst && len(under)*3 > len(ms)*2 {
+		c.Probe("forged_signers_above_two_thirds_by_count_below_by_power")
+	}
 	add := func(kind string, qc *lib.QuorumCertificate) { out = append(out, forged{kind, qc}) }
 	idxs := func(m []member2) (r []int) {
 		for _, x := range m {
@@ -164,6 +174,12 @@ func (w *world) forgeCertificates(pr *proposal, vs lib.ValidatorSet, honest *lib
 		if t.Chance(1, 2) {
 			pad = pad[:1]
 		}
+		if len(under) > 0 && t.Chance(1, 2) {
+			// the node first sees the genuine partial certificate, then the same signature with more bits claimed
+			g := w.baseQC(pr, lib.Phase_PRECOMMIT_VOTE)
+			g.Signature = w.aggregate(vs, g, under, nil, nil)
+			add("below-threshold(genuine partial, sent first)", g)
+		}
 		q.Signature = w.aggregate(vs, q, under, nil, pad)
 		add("bitmap-padded-with-unsigned-members", q)
 	case 2: // quorum reached only with signatures made by keys outside the committee
@@ -198,6 +214,15 @@ func (w *world) forgeCertificates(pr *proposal, vs lib.ValidatorSet, honest *lib
 			add("retargeted-to-other-block(hash updated)", q)
 		} else {
 			add("retargeted-to-other-block(hash kept)", q)
+		}
+		if kind == 6 && t.Chance(1, 3) {
+			// the honest block bytes followed by a second header field: raw-byte hashing sees the first,
+			// protobuf decoding merges both
+			if hdr, e := lib.Marshal(alt.blk.BlockHeader); e == nil {
+				q2 := cloneQC(honest)
+				q2.Block = append(append([]byte(nil), pr.blockBz...), append(binary.AppendUvarint([]byte{0x0A}, uint64(len(hdr))), hdr...)...)
+				add("second-header-appended-to-certified-block", q2)
+			}
 		}
 	case 7: // honest quorum signature re-targeted to other results (rewards redirected)
 		q := cloneQC(honest)
@@ -303,7 +328,10 @@ func (w *world) forgeCertificates(pr *proposal, vs lib.ValidatorSet, honest *lib
 	return
 }
 
-type altBlock struct{ bz, hash []byte }
+type altBlock struct {
+	bz, hash []byte
+	blk      *lib.Block
+}
 
 // alteredBlock derives a second well-formed block for the same height (other time / one transaction less).
 func (w *world) alteredBlock(pr *proposal, staleHash bool) *altBlock {
@@ -330,7 +358,7 @@ func (w *world) alteredBlock(pr *proposal, staleHash bool) *altBlock {
 	if err != nil {
 		return nil
 	}
-	return &altBlock{bz: bz, hash: h}
+	return &altBlock{bz: bz, hash: h, blk: blk}
 }
 
 // certAttack delivers forged block messages to tape-chosen running nodes before the honest certificate.
@@ -341,8 +369,8 @@ func (w *world) certAttack(pr *proposal, vs lib.ValidatorSet, honest *lib.Quorum
 		n = 1 + c.T.Intn(3)
 	}
 	for i := 0; i < n; i++ {
+		target := ups[c.T.Intn(len(ups))]
 		for _, f := range w.forgeCertificates(pr, vs, honest) {
-			target := ups[c.T.Intn(len(ups))]
 			w.focus(target)
 			before, hBefore := target.st.Version(), target.height()
 			saved := target.ctl.Consensus.BlockResult
@@ -386,7 +414,7 @@ func (w *world) lastCertAttack(pr *proposal, ups []*node) {
 	}
 	ms, total := w.committeeMembers(vs)
 	thr := total*2/3 + 1
-	under, rest, _ := belowQuorum(ms, thr, t.Intn(8))
+	under, rest, _ := belowQuorum(ms, thr, t.Intn(8), t.Chance(1, 2))
 	if len(under) == 0 || len(rest) == 0 {
 		return
 	}
